@@ -36,6 +36,14 @@ CHECKS = {
              text="TLC proves SelectedWasOffered, NoCredBeforeTls, OnlyNegoOnRaw, SilentAfterRefusal and the TlsDone guard (untrusted certificate + checking never yields a session) on the connection model. The full product {Connector nla x check, x224 API masks 0..15} x {response with all 256 low-byte selections + 13 high patterns, failure, echoed request, absent, unknown types} x flag bytes x {trusted, untrusted certificate} (17k runs quick) is replayed; the server logs every raw byte the client writes after the confirm; each run must be a behaviour of Rdp.tla (no action exists for clear-text continuation, for a TLS hello after a selection that was not offered, or for success after a refusal).",
              note="Trusted: TLC, OpenSSL trust decision with SSL_CERT_FILE = test CA, server-side logging of raw bytes. Refusing an offered-but-unimplemented protocol is allowed.",
              ref="DESIGN.md section 6 C02"),
+ "C15": dict(cat="model_checking", tech="the independent MS-NLMP server is the TLA+ module Ntlm.tla (Verify) evaluated by TLC with Java-override primitives on every AUTHENTICATE token the real Ntlm object produced for TLC-drawn accounts and challenges (Trace_Ntlm.tla)",
+             text="For each TLC-drawn (domain, user, password, password-or-hash constructor, flags, server challenge, target-info block) the real Ntlm object produces NEGOTIATE and AUTHENTICATE; Ntlm!Verify derives everything from the account's NT hash (MD4 of the password, computed by TLC) and the three messages: strict field addressing (WireNla), NTProofStr, LMv2 proof, timestamp and target info embedded in temp, RC4-unwrapped exported session key, MIC over the three messages, names in the token = configured account. Hash and password constructors are verified under the same account key.",
+             note="Trusted: JDK MD5/HMAC-MD5, hand-written MD4/RC4 in the Java override (known-answer checked at load), TLC. Name classes restricted as stated in the evidence.",
+             ref="DESIGN.md section 6 C15"),
+ "C16": dict(cat="model_checking", tech="TLA+ spec NtlmSession.tla model-checked by TLC with the real primitives (all message orders, every bit flip) + trace validation of gss_wrapex / gss_unwrapex against Ntlm!Wrap / Ntlm!Unwrap (byte-identical seals, rejection of every altered message)",
+             text="TLC proves RoundTrip, TamperRejected, Mirrored and Continuity on the two-direction session model with concrete keys. The real security interface (after a real handshake, and built from mirrored keys) seals message sequences of every length 0..n: each sealed message must equal Ntlm!Wrap in the state the trace reached (cipher stream position and sequence number carried over); messages sealed by the reference peer must unseal to the plaintext; every single-bit flip, truncation and extension must be rejected without plaintext.",
+             note="Trusted: Java primitives, TLC. Altered messages are tried on an equivalent rebuilt interface (stated in the evidence).",
+             ref="DESIGN.md section 6 C16"),
 }
 
 NOT_YET = {
